@@ -95,7 +95,7 @@ def pre_shootnew(shoot, mod, pair):
             continue
         cwd = mod / pair.sub / sub
         known = {}
-        r = l2.run_shoot(shoot, cwd, ["new", "-getset", "-type=" + ",".join(names)], timeout=60)
+        r = mh.shoot_retry(shoot, cwd, ["new", "-getset", "-type=" + ",".join(names)])
         if r["rc"] != 0 or r["panicked"] or r["timed_out"]:
             pair.status = "shoot-failed"
             pair.shoot = {"rc": r["rc"], "err": "shoot new -getset: " + r["err"][-800:], "panicked": r["panicked"],
